@@ -126,6 +126,79 @@ def run_script(chk, prog, sim, up, get, kind, script, key):
     return ok
 
 
+def check_follow_kind_change(chk, prog, sim, up, get):
+    """A followed command of another kind arriving IN an update: update_following_data sets it first (restart), and the very sample of
+    that update is already evaluated under the new command - error against the new kind's state component, gains of the new kind."""
+    key = "follow:kind-change"
+    chk.obligation(key, "a followed command of a different kind takes effect (value, component, gains) in the same update")
+    ug, gg = sim.identity_gargs(up), sim.identity_gargs(get)
+    st0, oid, _ = fresh(sim, prog, "Velocity")
+    obj = sim.expand(st0, st0.mem[oid])
+    names = sim.adt_fields(obj.ty)
+    fs = list(obj.fields)
+    done = False
+    for i, (n, t) in enumerate(names):
+        if is_adt(t, "SettableData"):
+            sd = sim.expand(st0, fs[i])
+            sdf = list(sd.fields)
+            for j, (fn_, ft) in enumerate(sim.adt_fields(t)):
+                if fn_ == "following":
+                    sdf[j] = sim.mk_enum(ft, "Some", [Sym("followed", ft["args"][0])])
+                    done = True
+            fs[i] = Struct(t, sdf)
+    if not done:
+        raise AnchorMissing("CommandPID settable data / following")
+    st0.mem[oid] = Struct(obj.ty, fs)
+    cmd_adt = prog.adt_by_name("Command")
+    cty = {"k": "adt", "did": cmd_adt["did"], "name": "Command", "args": []}
+    newcmd = sim.mk_enum(cty, "Position", [Sym("cnew", prim("f32"))])
+    st2 = st0.copy()
+    st2.frames, st2.effects, st2.oracle = [], [], {}
+
+    def hook(sim_, st_, label, method, args, ret_ty, ver):
+        if "followed" in label:
+            return K.build_output(sim_, ret_ty, "S", "f", newcmd, None)
+        return K.build_output(sim_, ret_ty, "S", "a", state_sample(prog, "a"), None)
+    old = sim.oracle_hook
+    sim.oracle_hook = hook
+    try:
+        leaves = sim.run(up, ug, [Ref(Ptr(oid), True)], st2)
+    finally:
+        sim.oracle_hook = old
+    ok = True
+    n = 0
+    kp = A.sym("kvalues.position.kp")
+    exp = kp * (A.sym("cnew") - A.sym("sa.position"))
+    for leaf in leaves:
+        chk.evaluated(1, nontrivial=(key, repr(leaf.pc)))
+        if leaf.kind != "return":
+            chk.violation("analysis-incomplete" if leaf.kind == "unsupported" else "C11.panic", key + ":" + leaf.kind, "update while following: %s %s" % (leaf.kind, leaf.info.get("msg")), fn=up["pretty"])
+            ok = False
+            continue
+        ret = sim.final_value(leaf.state, leaf.value)
+        if isinstance(ret, Enum) and ret.vname == "Err":
+            continue
+        for gl in N.get_on(sim, get, gg, leaf.state, oid):
+            chk.evaluated(1)
+            g = K.classify_output(sim, gl.state, gl.value) if gl.kind == "return" else None
+            n += 1
+            good = bool(g) and g[0] == "S" and g[1] == Sym("ta")
+            if good:
+                try:
+                    good = A.equal(A.to_sympy(g[2]), exp)
+                except Exception:
+                    good = False
+            if not good:
+                chk.violation("C11.gains", key, "a controller commanded Velocity that follows a getter presenting Position(cnew): after the update get() returns %r, expected %s stamped with the sample time "
+                              "(the followed command must already govern this sample: its value, the position component and the POSITION gains)" % (g, A.show(exp)), fn=up["pretty"], file=loc(up["span"]))
+                ok = False
+    if n == 0:
+        chk.violation("C11.gains", key + ":vacuous", "no returning path explored for the followed kind change")
+        ok = False
+    if ok:
+        chk.discharge(key)
+
+
 def check_impl_set(chk, prog, sim):
     key = "impl_set"
     chk.obligation(key, "equal command changes nothing; different command restarts and is stored")
@@ -228,6 +301,7 @@ def run(chk):
                 chk.discharge(key)
     check_impl_set(chk, prog, sim)
     check_gain_selection(chk, prog, sim)
+    check_follow_kind_change(chk, prog, sim, up, get)
     # a followed-command change reaches the controller through SettableData::following: only follow / stop_following may write it
     # (a reset that rebuilds the SettableData silently stops following); the who-may-write table is shared with C15
     import rules.C15 as C15
